@@ -893,6 +893,9 @@ FAMILIES = [
 ]
 
 TRUSTED = [
+    "translator harness/translate/py2coq.py + declared types (py2coq_targets.py MemtableGen): Memtable.put_sync/get_sync/contains/size/is_full are "
+    "regenerated from components/storage/memtable.py on every run and proved to refine the model's key-sorted memtable table (C14/MemTie.v); keys and "
+    "stored values are integers and a stored value is never None; the generator methods put/get and flush are hand-modelled",
     "Coq 8.16.1 kernel (coqc, vm_compute for refutation witnesses and case evaluation); no native_compute",
     "axioms: none (every theorem of C14/Props.v is 'Closed under the global context')",
     "correspondence harness harness/props/c14.py (generators, observers, in-Coq comparison ok_* of C14/Model.v)",
@@ -901,7 +904,8 @@ TRUSTED = [
     "the level list has fixed length max_levels",
 ]
 
-PROOF_FILES = ["C14/Model.v", "C14/LsmProofs.v", "C14/SeqProofs.v", "C14/ConcProofs.v", "C14/KvTxnModel.v", "C14/KvTxnProofs.v", "C14/BtModel.v", "C14/BtProofs.v", "C14/BtRep.v", "C14/BtIns.v", "C14/BtOps.v", "C14/Props.v"]
+PROOF_FILES = ["C14/Model.v", "C14/LsmProofs.v", "C14/SeqProofs.v", "C14/ConcProofs.v", "C14/KvTxnModel.v", "C14/KvTxnProofs.v", "C14/BtModel.v", "C14/BtProofs.v", "C14/BtRep.v", "C14/BtIns.v", "C14/BtOps.v",
+               "Base/PyLib.v", "Gen/MemtableGen.v", "C14/MemTie.v", "C14/Props.v"]
 
 
 def eval_cases_split(tag, imports, ok_fn, case_type, cases, shard=120, timeout=900, workers=4):
@@ -986,7 +990,12 @@ class Pre:
 
 
 def run(ctx):
+    from props import pygen
+    ok, info = pygen.regenerate("MemtableGen")    # Memtable's synchronous API translated from $HS_REPO by py2coq
+    ctx.coverage["regenerated"] = info
     ctx.prove(PROOF_FILES, allowed_axioms=(), trusted_base=TRUSTED)
+    if not ok and ctx.pending_obligation_violation:
+        ctx.pending_obligation_violation["translator"] = info.get("error")
     fam = {f.name: f for f in FAMILIES}
     from concurrent.futures import ThreadPoolExecutor
     plan = [("lsm_seq", ctx.n(100, 400)), ("lsm_conc", ctx.n(150, 700)), ("kv_conc", ctx.n(60, 200)),
